@@ -72,6 +72,8 @@ def cases(tier, seed):
     if tier == "thorough":
         N = 5          # chunked-key states: N=6 with three symbolic pointer tables exceeds the solver budget
     lay = compositions(N, 2 if tier == "quick" else 3, 2)
+    if tier == "quick":
+        lay = lay + [[1, 2, 1]]          # one three-chunk layout in the quick tier as well
     gfuncs = ("sum", "min", "max", "first", "last", "count", "mean") if tier == "quick" else ("sum", "min", "max", "first", "last", "count", "mean", "sum_squares", "size")
     for lengths in lay:
         for f in gfuncs:
